@@ -146,6 +146,13 @@ def twoStepFresnel(Uin, wvl, d1, d2, z):
     C = fouriertransform.ft2(Uitm * numpy.exp( 1j * k/(2*Dz2) * (x1a**2 + y1a**2)), d1a)
     Uout = A*B*C
 
+    #A single-FFT Fresnel step over a negative distance lands on a grid whose
+    #axes point the other way. Whenever m != 1 exactly one of the two steps
+    #does (Dz2 = -m*Dz1), so undo the resulting point reflection about the
+    #centre sample to return the field with the orientation of the input
+    if Dz1 * Dz2 < 0:
+        Uout = numpy.roll(Uout[::-1, ::-1], 1, axis=(0, 1))
+
     return Uout
 
 def lensAgainst(Uin, wvl, d1, f):
